@@ -392,7 +392,7 @@ fn c06_strace(ctx: &mut Ctx, b: &Built, tampered: bool) {
 
 fn run_c06(ctx: &mut Ctx) {
     let mut r = StdRng::seed_from_u64(ctx.shard_seed());
-    let n = ctx.tier.pick(40, 600);
+    let n = ctx.tier.pick(40, 1500);
     let opts = GenOpts { error_pct: 0, ..GenOpts::default() };
     for i in 0..n {
         if !ctx.time_left() || ctx.violations.len() > 20 {
@@ -679,10 +679,10 @@ fn c07_race(ctx: &mut Ctx, rounds: usize) {
 }
 
 fn run_c07(ctx: &mut Ctx) {
-    let rounds = ctx.tier.pick(3, 30);
+    let rounds = ctx.tier.pick(3, 60);
     c07_race(ctx, rounds);
     let mut r = StdRng::seed_from_u64(ctx.shard_seed());
-    let n = ctx.tier.pick(400, 4000);
+    let n = ctx.tier.pick(400, 20_000);
     let logs = ctx.scratch.root.join("logs");
     let _ = std::fs::create_dir_all(&logs);
     let mlog = logs.join("clean.log");
@@ -1554,7 +1554,7 @@ fn c10_cli_combos(ctx: &mut Ctx, files: &Files, trailing: bool) {
 
 fn run_c10(ctx: &mut Ctx) {
     let mut r = StdRng::seed_from_u64(ctx.shard_seed());
-    let n = ctx.tier.pick(300, 4000);
+    let n = ctx.tier.pick(300, 12_000);
     for i in 0..n {
         if !ctx.time_left() || ctx.violations.len() > 20 {
             break;
